@@ -246,9 +246,8 @@ Section NoErr.
       { destruct (hk m =? 1)%nat; [cbn; split; assumption|]. apply (IH b PCheckHalt s). split; assumption. }
       intros s1 (A & B).
       destruct (DI_enqueue (next_hop c (mdest m)) m (set_scnt (scnt s1 + 1) s1) B (Hhop _ Hm)) as (D3 & Q3).
-      cbn [inprq set_scnt] in Q3. rewrite Q3, A.
-      destruct b; [cbn; split; [congruence|exact D3]|].
-      apply (IH false PFlushToCap). split; [congruence|exact D3].
+      cbn [inprq set_scnt] in Q3.
+      apply (IH b PFlushToCap). split; [congruence|exact D3].
     - (* PQueueBytes *)
       intros Hd (Hq & Hdi). cbn [run].
       destruct (DI_enqueue d m (set_scnt (scnt s + 1) s) Hdi Hd) as (D3 & Q3). cbn [inprq set_scnt] in Q3.
@@ -258,7 +257,7 @@ Section NoErr.
       eapply resE_bind with (P1 := pre0 b); [apply (IH b PCheckHalt s); split; assumption|].
       intros s1 P1.
       eapply resE_bind with (P1 := pre0 b); [apply (IH b (PQueueMany _ _) s1 Hloc P1)|].
-      intros s2 (A & B). rewrite A. destruct b; [cbn; split; assumption|]. apply (IH false PFlushToCap s2). split; assumption.
+      intros s2 (A & B). apply (IH b PFlushToCap s2). split; assumption.
     - (* PMcast *)
       intros Hds P0. destruct ds as [|d ds]; cbn [run]; [exact P0|]. inversion Hds as [|? ? Hd Hrest]; subst.
       eapply resE_bind with (P1 := pre0 b); [apply (IH b (PAsync _) s); [cbn; exact Hd|exact P0]|].
